@@ -81,17 +81,12 @@ def common(res, pid):
     res.streams["expander"] = {"invocations": len(eq), "accepted": sum(1 for x in eq if x[1] == "ok"),
                                "token_disagreements": len(bad), "tokens_compared": sum(x[4] for x in eq)}
     # (c) semantic stage
-    try:
-        cases = stage(res)
-    except semstage.RejectedAssertion as e:
-        # C02: a value that satisfies (or not) a well-formed, well-typed pattern must give a verdict; for the other properties of
-        # this stage it is the end of the check without a failing input of their own
-        kind = "failing-input" if pid == "C02" else "no-failing-input-found"
-        res.violation(kind, "a well-typed assertion of the generated corpus is rejected by the compiler (it compiles on the tree the "
-                      "generator was validated on): assert_struct!(v, %s) with v: %s = %s" % (e.case.get("program_pattern", e.case["pattern"]), e.case["type"], e.case["value_rust"]),
-                      {"rejected_assertion": True, "type": e.case["type"], "value": e.case["value_rust"], "pattern": e.case.get("program_pattern", e.case["pattern"]),
-                       "rustc": e.stderr})
-        raise vlib.CheckError("the semantic stage could not be run: " + str(e)[:600])
+    cases = stage(res)
+    res._rejected = list(semstage.LAST_REJECTED)
+    if res._rejected and pid == "C02":
+        # C02: a value that satisfies (or not) a well-formed, well-typed pattern must give a verdict
+        for c in res._rejected[:2]:
+            res.violation("failing-input", rejected_text(c), rejected_payload(c))
     name_c = "correspondence:semantics(real run == exec(expand) == frontier)"
     res.obligations.append(name_c)
     sem_dis = []
@@ -112,6 +107,15 @@ def common(res, pid):
     return cases, bad, sem_dis, name_a, name_c
 
 
+def rejected_text(c):
+    return ("a well-typed assertion of the generated corpus is rejected by the compiler (it compiles on the tree the generator was validated on): "
+            "assert_struct!(v, %s) with v: %s = %s" % (c.get("program_pattern", c["pattern"]), c["type"], c["value_rust"]))
+
+
+def rejected_payload(c):
+    return {"rejected_assertion": True, "type": c["type"], "value": c["value_rust"], "pattern": c.get("program_pattern", c["pattern"]), "rustc": c["rejected"]}
+
+
 def describe(c):
     return {"type": c["type"], "value": c["value_rust"], "pattern": c["pattern"],
             "real": {"verdict": c["real"]["verdict"], "entries": semstage.real_entries(c)},
@@ -119,6 +123,11 @@ def describe(c):
 
 
 def finish(res, pid, cases, bad, sem_dis, name_a, name_c, failing, nontrivial, rule, samples):
+    rej = getattr(res, "_rejected", [])
+    if rej and pid != "C02" and not failing:
+        # for the other properties of this stage a rejected assertion is a case they could not judge, not a failing input of theirs
+        res.violation("no-failing-input-found", rejected_text(rej[0]), rejected_payload(rej[0]))
+    res.streams.setdefault("semantics", {})["assertions_rejected_by_rustc"] = len(rej)
     if bad and not failing:
         res.violation("no-failing-input-found",
                       "correspondence expander no longer checks: the real expansion differs from the model's on %d invocations" % len(bad),
